@@ -215,7 +215,6 @@ func (m *ledgerModel) boundarySites(inPkgs ...string) []ssa.CallInstruction {
 	return out
 }
 
-
 // loadsOrigin: the stored value of st is also stored, in the same function and on the same object, into the
 // origin field originF, or is computed from a load of that origin field.
 func loadsOrigin(fn *ssa.Function, st *ssa.Store, originF string) bool {
